@@ -1,6 +1,7 @@
 package props
 
 import (
+	"bytes"
 	"errors"
 	"fmt"
 	"io"
@@ -270,6 +271,12 @@ type readResult struct {
 
 // readAll decodes z as configured. A clean end of stream is reported as Err == nil.
 func readAll(z []byte, rc rcfg, handler func(int)) readResult {
+	return readAllAfter(nil, z, rc, handler)
+}
+
+// readAllAfter is readAll on a Reader that has decoded the streams of prev before (each to its end, or to its error), with
+// Reset in between: what an earlier stream leaves behind in the object must not show.
+func readAllAfter(prev [][]byte, z []byte, rc rcfg, handler func(int)) readResult {
 	ss := &inst.SeekSource{Source: inst.Source{Data: z, Chunks: rc.Src, EOFWith: rc.EOFWith, ZeroBurst: rc.ZeroBurst}}
 	src := &ss.Source
 	var rdr io.Reader = src
@@ -285,6 +292,18 @@ func readAll(z []byte, rc rcfg, handler func(int)) readResult {
 	if err := r.Apply(opts...); err != nil {
 		res.Err = fmt.Errorf("Reader.Apply: %w", err)
 		return res
+	}
+	if len(prev) > 0 {
+		scratch := make([]byte, 1<<16)
+		for _, p := range prev {
+			r.Reset(bytes.NewReader(p))
+			for {
+				if _, err := r.Read(scratch); err != nil {
+					break
+				}
+			}
+		}
+		r.Reset(rdr)
 	}
 	if rc.WriteTo {
 		var sink inst.Sink
